@@ -15,6 +15,27 @@ pub fn from_utf8_ascii(v: Vec<u8>) -> Result<String, std::string::FromUtf8Error>
     Ok(unsafe { String::from_utf8_unchecked(v) })
 }
 
+/// Model of String::from_utf8 that also admits well-formed 2- and 3-byte sequences (no overlong /
+/// surrogate checks: only used on concrete templates that are valid UTF-8); anything else is cut.
+pub fn from_utf8_model(v: Vec<u8>) -> Result<String, std::string::FromUtf8Error> {
+    let mut i = 0;
+    while i < v.len() {
+        let b = v[i];
+        if b < 0x80 {
+            i += 1;
+        } else if b >= 0xC2 && b <= 0xDF {
+            kani::assume(i + 1 < v.len() && v[i + 1] & 0xC0 == 0x80);
+            i += 2;
+        } else if b >= 0xE0 && b <= 0xEF {
+            kani::assume(i + 2 < v.len() && v[i + 1] & 0xC0 == 0x80 && v[i + 2] & 0xC0 == 0x80);
+            i += 3;
+        } else {
+            kani::assume(false);
+        }
+    }
+    Ok(unsafe { String::from_utf8_unchecked(v) })
+}
+
 /// ASCII model of str::to_lowercase.
 pub fn to_lowercase_ascii(s: &str) -> String {
     let b = s.as_bytes();
